@@ -65,7 +65,7 @@ def drive_legacy(tier):
                                  + [r.randrange(256) for _ in range(8)]))
             if mut and tier == "quick" and si >= 8:
                 hts = hts[::3]
-            for idx in range(len(d["vin"]) + 1):
+            for idx in list(range(len(d["vin"]) + 1)) + ([-1, -len(d["vin"]) - 1] if si % 3 == 0 else []):      # indices that do not exist: too large, negative
                 sub = gen_subscript(r, r.choice([0, 0, 0, 200, 300]))
                 sc = CScript(sub)
                 if mut and idx == 1:
